@@ -1,6 +1,6 @@
 (** C16 — values survive storage unchanged; no value or declaration makes the value layer panic.
     Model: Model/Value.v (ValueFrom / ValueFor of schema/schema_item.go). *)
-From BV Require Import Model.Value Proofs.ValueProofs Model.Store Proofs.StoreProofs Gen.Facts.
+From BV Require Import Model.Value Proofs.ValueProofs Model.Store Proofs.StoreProofs Model.Scopes Proofs.ScopesProofs Gen.Facts.
 Open Scope Z_scope.
 
 (* No dynamic value under any declared item type (or none) panics — for the code as repaired. *)
@@ -86,6 +86,33 @@ Theorem C16_isolation_refuted_with_writes_in_place :
   read h1 snapshot 0 = Some 7 /\ read h2 snapshot 0 = Some 41.
 Proof. exact refuted_in_place. Qed.
 Print Assumptions C16_isolation_refuted_with_writes_in_place.
+
+(* ONE STORE PER INSTANCE (Model/Scopes.v). The process and its embedded sub-processes, however deep, read and write
+   through one locator (the variant the sources show: src_subprocess_shares_the_locator, read off newSubProcess on every
+   run): after any history of writes made from any scopes, a value stored from scope s is what EVERY scope s' reads
+   under that name, and no other name changes for anybody. *)
+Theorem C16_a_value_stored_in_any_scope_is_read_in_every_scope : forall st ws s n v s', wf0 st ->
+  let sh := src_subprocess_shares_the_locator in let ip := negb src_setvariable_replaces in
+  sread sh (swrite sh ip (swrites sh ip st ws) (s, n, v)) s' n = Some v /\
+  forall m, m <> n ->
+    sread sh (swrite sh ip (swrites sh ip st ws) (s, n, v)) s' m = sread sh (swrites sh ip st ws) s' m.
+Proof. exact one_store. Qed.
+Print Assumptions C16_a_value_stored_in_any_scope_is_read_in_every_scope.
+
+(* with a locator per scope (a merged copy made when the instance is built) it is not so: what the process stores is
+   not read inside the sub-processes and the other way round -- C16_holders_keep_their_values turned against the engine *)
+Theorem C16_one_store_refuted_with_a_locator_per_scope :
+  let st := swrites false false ([], [[]; []; []]) [(0, 1, 7); (2, 2, 9)] in
+  sread false st 0 1 = Some 7 /\ sread false st 1 1 = None /\ sread false st 2 1 = None /\
+  sread false st 2 2 = Some 9 /\ sread false st 0 2 = None.
+Proof. exact refuted_with_a_locator_per_scope. Qed.
+Print Assumptions C16_one_store_refuted_with_a_locator_per_scope.
+
+Example C16_scopes_nonvacuous :
+  wf0 ([], [[]]) /\
+  let st := swrites true false ([], [[]]) [(0, 1, 7); (2, 2, 9); (1, 1, 8)] in
+  map (fun s => (sread true st s 1, sread true st s 2)) [0; 1; 2; 3] = repeat (Some 8, Some 9) 4.
+Proof. split; [exists []; split; [reflexivity|intros n l H; discriminate H]|vm_compute; reflexivity]. Qed.
 
 Example C16_store_nonvacuous :
   let s := writes false ([], [[]; []]) [(0, 1, 7); (1, 1, 8); (0, 2, 9); (0, 1, 41)] in
